@@ -245,6 +245,29 @@ def gen(tier, seed):
         if rng.random() < 0.85:
             entries.insert(min(j, len(entries)), [["str", fn], corrupt(rng, T[3][j][3])])
         cases.append(dict(ty=T, val=expect, via=["raw", ["dict", False, entries], False], stream="malformed"))
+    # 5b. ints that a detour through float() would round: as dict keys (JSON object keys travel as strings), as plain fields
+    #     and list items, through every transport, and as decimal strings in lenient raw dicts
+    bigs = [2 ** 53 + 1, -(2 ** 53) - 1, -(2 ** 63) - 1, 2 ** 64 + 1, 10 ** 30 + 7, -(10 ** 30) - 7, 10 ** 400 + 1, -(10 ** 400) - 1]
+    j = 0
+    for z in bigs:
+        zi = ["int", str(z)]
+        shapes = [(["dict", ["int"], ["str"]], ["dict", False, [[zi, ["str", "v"]]]], ["dict", False, [[["str", str(z)], ["str", "v"]]]]),
+                  (["int"], zi, ["str", str(z)]),
+                  (["list", ["int"]], ["list", [zi, ["int", "1"]]], ["list", [["str", str(z)], ["str", " 1 "]]]),
+                  (["dict", ["int"], ["list", ["int"]]], ["dict", False, [[zi, ["list", [zi]]]]],
+                   ["dict", False, [[["str", str(z)], ["list", [["str", str(z)]]]]]])]
+        for ft, fv, raw in shapes:
+            for via in ([["api", "json"], ["file", ".json"], ["api", "yaml"], ["api", "dict"]] if thorough or j % 2 == 0
+                        else [["api", "json"], ["file", ".json"]]):
+                kind = kinds[j % 3]
+                j += 1
+                T = top([ft], kind, required=True)
+                cases.append(dict(ty=T, val=["dc", kind, T[2], [["f0", dict(sc.PLAIN_META), fv]]], via=via, stream="bigint"))
+            kind = kinds[j % 3]
+            j += 1
+            T = top([ft], kind, required=True)
+            cases.append(dict(ty=T, val=["dc", kind, T[2], [["f0", dict(sc.PLAIN_META), fv]]],
+                              via=["raw", ["dict", False, [[["str", "f0"], raw]]], True], stream="bigint"))
     # 6. ints beyond the float range
     for i in range(6 if not thorough else 30):
         kind = kinds[i % 3]
